@@ -1,8 +1,8 @@
 SPECIFICATION Spec
 CONSTANTS
-  Schemes = {"wrap"}
+  Schemes = {"groupkey", "sealedgk", "pskseed", "topicmsg", "sealedtopic"}
   MaxTamper = 2
   HashModel = "tuple"
-  PLens = {0}
+  PLens = {0, 1, 16, 17, 48}
 INVARIANTS AcceptIffUnchanged IdAgreement Emit
 CHECK_DEADLOCK FALSE
